@@ -33,6 +33,18 @@ EVIDENCE = os.path.join(VERIF, 'evidence')
 REPLAYS = os.path.join(VERIF, 'replays')
 KNOWN = os.path.join(VERIF, 'known_findings.json')
 NCPU = min(16, os.cpu_count() or 4)
+if os.path.realpath(REPO) != '/repo':
+    # Mutation testing against a scratch worktree (VERIF_REPO=/var/tmp/wt ./check Cxx): use a private copy of
+    # the Coq build tree and private evidence/replay directories so that /verif's own state is not disturbed.
+    _priv = '/var/tmp/verif-private-' + hashlib.md5(os.path.realpath(REPO).encode()).hexdigest()[:8]
+    os.makedirs(_priv, exist_ok=True)
+    subprocess.run(['rsync', '-a', '--exclude', 'cases/', '--exclude', '.build.lock', '--exclude', 'gen/',
+                    COQ + '/', _priv + '/coq/'], check=True)
+    COQ = os.path.join(_priv, 'coq')
+    CASES = os.path.join(COQ, 'cases')
+    GEN = os.path.join(COQ, 'gen')
+    EVIDENCE = os.path.join(_priv, 'evidence')
+    REPLAYS = os.path.join(_priv, 'replays')
 COQ_ARGS = ['-R', COQ, 'MP']
 
 FORBIDDEN = re.compile(
@@ -416,10 +428,17 @@ class Ctx:
 # --------------------------------------------------------------------------- known findings
 
 def load_known():
+    out = []
     try:
-        return json.load(open(KNOWN))['findings']
+        out.extend(json.load(open(KNOWN))['findings'])
     except OSError:
-        return []
+        pass
+    d = os.path.join(VERIF, 'known_findings.d')
+    if os.path.isdir(d):
+        for fn in sorted(os.listdir(d)):
+            if fn.endswith('.json'):
+                out.extend(json.load(open(os.path.join(d, fn)))['findings'])
+    return out
 
 
 def match_known(pid, signature):
@@ -430,6 +449,10 @@ def match_known(pid, signature):
 
 
 # --------------------------------------------------------------------------- main driver
+
+def _rel(path):
+    return os.path.relpath(path, VERIF) if path.startswith(VERIF + os.sep) else path
+
 
 def write_replay(pid, payload):
     os.makedirs(REPLAYS, exist_ok=True)
@@ -537,7 +560,7 @@ def run_check(mod, tier, seed):
                                       'what': f['what'], 'replay': f['replay'], 'seed': seed, 'tier': tier,
                                       'broken_ties': ctx.problems[:10],
                                       'how': './check %s --tier %s  (VERIF_SEED=%d)' % (pid, tier, seed)})
-            lines.append('VIOLATION property=%s replay=%s' % (pid, os.path.relpath(path, VERIF)))
+            lines.append('VIOLATION property=%s replay=%s' % (pid, _rel(path)))
             violations += 1
             if violations >= 5:
                 break
@@ -546,7 +569,7 @@ def run_check(mod, tier, seed):
         path = write_replay(pid, {'property': pid, 'kind': 'broken-obligation', 'no_longer_checks': ctx.problems[:30],
                                   'seed': seed, 'tier': tier,
                                   'how': './check %s --tier %s  (VERIF_SEED=%d)' % (pid, tier, seed)})
-        lines.append('VIOLATION property=%s replay=%s no-failing-input-found' % (pid, os.path.relpath(path, VERIF)))
+        lines.append('VIOLATION property=%s replay=%s no-failing-input-found' % (pid, _rel(path)))
         violations = 1
         exit_code = 1
 
